@@ -222,7 +222,7 @@ func (l *Liar) Mutate(p *Peer, req wire.Message, honest []wire.Message) []wire.M
 		if len(honest) != 1 {
 			return honest
 		}
-		stop := g.ByHash[t.StopHash]
+		stop := g.Lookup(t.StopHash)
 		if stop == nil {
 			return honest
 		}
@@ -252,7 +252,7 @@ func (l *Liar) Mutate(p *Peer, req wire.Message, honest []wire.Message) []wire.M
 		if len(honest) != 1 {
 			return honest
 		}
-		stop := g.ByHash[t.StopHash]
+		stop := g.Lookup(t.StopHash)
 		if stop == nil {
 			return honest
 		}
@@ -291,7 +291,7 @@ func (l *Liar) Mutate(p *Peer, req wire.Message, honest []wire.Message) []wire.M
 				out = append(out, m)
 				continue
 			}
-			if n := g.ByHash[cf.BlockHash]; n != nil {
+			if n := g.Lookup(cf.BlockHash); n != nil {
 				l.hashFor(n) // make sure the falsified material exists
 			}
 			if l.noServe[cf.BlockHash] {
